@@ -143,6 +143,7 @@ func (c *stepCtx) oracleC04() {
 		if err != nil {
 			c.viol("C04", "C04|last-indexed-error|"+c.shape, err.Error())
 		} else if (lr*rs+lb)*512 != last {
+			c.poisoned = true // every later write would be indexed at wrong positions: a dead end, not a new finding
 			c.viol("C04", "C04|last-indexed-position|"+c.shape, fmt.Sprintf("history: %s\nindex says last written position is (%d,%d) = byte %d, final record on the tape starts at %d", c.hist(), lr, lb, (lr*rs+lb)*512, last))
 		}
 		// Query(0,0) reports exactly the scanner's positions
